@@ -152,6 +152,10 @@ def generate(rng, idx, tier, variant):
         elif rng.random() < 0.2:
             ops.append({'op': 'poke', 'name': rng.choice(names), 'pos': rng.randrange(n), 'v': rng.choice(S.DYADS) if not int_model else S.BIG + rng.randrange(64)})
     spec.pop('_allow_huge', None)
+    if rng.random() < 0.05 and spec['span']['type'] not in ('list_dup',):
+        # the less-travelled route to the same object: constructed on an empty span of its kind, then reindexed onto the
+        # span of the run and filled by assignment (all three parties alike)
+        spec['born_empty'] = True
     return {'spec': spec, 'ops': ops, 'np_err': np_err}
 
 
@@ -177,6 +181,16 @@ def build_triplet(fsic, spec, ctx=None):
         traced = type('Traced', (TracerMixin, base), {'TRACE_VARIABLES': _seq(spec, spec.get('trace_variables'))})
     out = []
     for cls in (traced, traced, base):
+        if spec.get('born_empty'):
+            m = probes.new_scripted_instance(cls, spans.make_span(dict(spec['span'], n=0)), {}, **S._dtype_kw(spec)).reindex(spans.make_span(spec['span']))
+            for nm_, vals_ in spec['init'].items():
+                m.__dict__['_' + nm_][:] = np.array([probes.fval(v) for v in vals_], dtype=m.__dict__['_' + nm_].dtype)
+            probes.attach_ctl(m)
+            if ctx is not None:
+                ctx.probe('constructed-on-an-empty-span-then-reindexed')
+            probes.get_ctl(m).columns = True
+            out.append(m)
+            continue
         m = probes.new_scripted_instance(cls, spans.make_span(spec['span']), spec['init'], **S._dtype_kw(spec))
         probes.get_ctl(m).columns = True
         out.append(m)
@@ -237,6 +251,9 @@ def execute(schedule, ctx):
     kept = []  # (original left behind by a copy, observation of its traces at that moment)
     # what each period's trace is expected to hold so far: (names, labels, columns)
     expected = {p: {'names': None, 'labels': [], 'cols': []} for p in range(n)}  # names None <=> trace still empty
+    if spec.get('born_empty'):
+        for e_ in expected.values():
+            e_['fresh'] = True  # (every period came into being by reindex(): nothing is recorded for it, whatever its cell holds)
 
     for step, op in enumerate(schedule['ops']):
         ctx.step = step
